@@ -11,13 +11,16 @@ TEXT = [  # value classes of the quantifier (single-line, no leading/trailing bl
     {"relname": "UPPER lower", "relshort": "Up", "relver": "7.1", "bpname": "\"quoted\"", "bpshort": "'q'", "bpver": "snapshot", "vname": "[%s]"},
     # short name equal to the name (Fedora / Fedora), for the release and for the base product
     {"relname": "Fedora", "relshort": "Fedora", "relver": "40", "bpname": "CentOS", "bpshort": "CentOS", "bpver": "9", "vname": "%s"},
+    # a name that ends with the text of its version
+    {"relname": "Project 2020", "relshort": "P", "relver": "20", "bpname": "Stream Rawhide", "bpshort": "S", "bpver": "Rawhide", "vname": "%s 20"},
 ]
 PCT = {"relname": "100%% pure %(arch)s", "relshort": "P%", "relver": "22", "bpname": "b%", "bpshort": "B", "bpver": "7", "vname": "%s %%"}
 IDS = [{"A": "Server", "B": "Client", "S": "Server", "o": "optional", "T": "Tools", "h": "HighAvailability", "g": "Extras"},
        {"A": "a", "B": "B9", "S": "Z", "o": "optional", "T": "t", "h": "H", "g": "0"},
        # a top-level variant and a child below another one share their id (HA next to Server-HA): UIDs stay distinct
        {"A": "Server", "B": "HA", "S": "S", "o": "optional", "T": "T", "h": "HA", "g": "HA"}]
-ARCHS = [("x86_64", "xen", "lpae"), ("ppc64le", "p8", "b"), ("aarch64", "X", "y"), ("i386", "xen-pv", "xen"), ("armhfp", "omap", "tegra")]   # a platform name may contain dashes
+ARCHS = [("x86_64", "xen", "lpae"), ("ppc64le", "p8", "b"), ("aarch64", "X", "y"), ("i386", "xen-pv", "xen"), ("armhfp", "omap", "tegra"),
+         ("ppc", "ppc64", "ppc64le")]                      # the tree arch is a substring of its other platforms   # a platform name may contain dashes
 IMG = {"boot": "images/boot.iso", "kernel": "images/pxeboot/vmlinuz", "xenkernel": "images/pxeboot/vmlinuz-xen", "initrd": "images/Initrd.IMG",
        "stage2": "LiveOS/squashfs.img", "inst": "images/install.img"}
 
